@@ -10,12 +10,15 @@ def runCrash (inp out : Json) : Json :=
   let bad := (jarr out "bad").toList
   -- the model: in-place write; the Action flavour re-parses (a proper prefix does not decode), the raw
   -- flavour hands out whatever the file holds
-  let modelBad := flavour == "raw"
+  let modelBad := flavour == "raw" && !jbool inp "skipReader"
   let same := modelBad == !bad.isEmpty
   let fails : List AFail :=
     match bad.head? with
-    | some b => [{ prop := "C15", code := s!"partial_entry_served:{flavour}", detail := s!"write stopped after {jnat b "k"} of {jnat out "docLen"} bytes: the next reader was served {(jget b "served").compress} without a real invocation (file holds {jnat b "fileLen"} bytes)" }]
+    | some b => [{ prop := "C15", code := s!"partial_entry_served:{flavour}", detail := (if jint b "k" == -2 then "the computation died inside the callback; " else "") ++ s!"write stopped after {jint b "k"} of {jnat out "docLen"} bytes: the next reader was served {(jget b "served").compress} without a real invocation (file holds {jnat b "fileLen"} bytes)" }]
     | none => []
+  -- raw flavour: the call that computed the complete bytes must not itself be handed a part of them as if it were the value
+  let fails := fails ++ (if jint out "writerHandedPartial" ≥ 0 then
+    [{ prop := "C15", code := "writer_handed_partial_bytes", detail := s!"the write stopped after {jint out "writerHandedPartial"} bytes and the writing call returned incomplete bytes without an error" }] else [])
   Json.mkObj [("same", Json.bool same),
               ("diff", Json.str (if same then "" else s!"model expects {if modelBad then "a partial entry to be served" else "no partial entry"}; real: {(jget out "bad").compress}")),
               ("fails", Json.arr (fails.map afailJson).toArray),
